@@ -80,3 +80,23 @@ package dig
 //@ func (*filterResults).accept props=C12
 //@   ensures result == (!fr.set || fr.val)
 //@   ensures fr.set == old(fr.set) && fr.val == old(fr.val) && fr.kind == old(fr.kind)
+
+// C09: static/dynamic classification and head size per the Solidity ABI.
+// isStatic/headSize are the specification (unfolded once at each use);
+// hasStatic and sizeof must compute them for every type tree.
+//@ spec rec isStatic(t atype) bool = t.kind == 'd' ? false : (t.kind == 'a' ? (t.length != 0 && t.elem != nil && isStatic(*t.elem)) : (t.kind == 't' ? (forall i int :: 0 <= i && i < len(t.fields) ==> isStatic(t.fields[i])) : true))
+//@ spec rec sumSize(fs []atype, k int) int = k <= 0 ? 0 : sumSize(fs, k-1) + headSize(fs[k-1])
+//@ spec rec headSize(t atype) int = t.kind == 's' ? 32 : (t.kind == 'd' ? 0 : (t.kind == 'a' ? t.length * headSize(*t.elem) : sumSize(t.fields, len(t.fields))))
+//@ spec rec shape(t atype) bool = (t.kind == 's' || t.kind == 'd' || t.kind == 'a' || t.kind == 't')
+//@ +  && (t.kind == 'a' ==> t.elem != nil && shape(*t.elem))
+//@ +  && (t.kind == 't' ==> (forall i int :: 0 <= i && i < len(t.fields) ==> shape(t.fields[i])))
+
+//@ func hasStatic props=C09
+//@   requires shape(t)
+//@   ensures result == isStatic(t)
+//@   loop#0 invariant forall k int :: 0 <= k && k <= rangeindex ==> isStatic(t.fields[k])
+
+//@ func sizeof props=C09
+//@   requires shape(t)
+//@   ensures result == headSize(t)
+//@   loop#0 invariant n == sumSize(t.fields, rangeindex + 1)
